@@ -1,7 +1,7 @@
 (* C05  A corrupted frame is rejected or decoded as what it actually says — engine half, for every input. *)
 From Coq Require Import ZArith List Bool.
 Require Import PyIR.Base.Result PyIR.IW.IW PyIR.Engine.Match PyIR.Engine.Render PyIR.Engine.Parse
-               PyIR.Engine.ParseProps PyIR.Engine.RoundTripH PyIR.Engine.Tolerance PyIR.Engine.ParseM PyIR.Engine.ParseMProps.
+               PyIR.Engine.ParseProps PyIR.Engine.RoundTripH PyIR.Engine.Tolerance PyIR.Engine.ParseM PyIR.Engine.ParseMProps PyIR.Engine.ParseB.
 Import ListNotations.
 Open Scope Z_scope.
 
@@ -27,5 +27,14 @@ Theorem C05_parse_sound_manchester : forall tol li lo t ds p, parseM tol li lo t
     p_bits p = flat_map (sym_to_bits (length t)) (p_syms p).
 Proof. exact parseM_sound. Qed.
 
+(* Serial ("bit") tables: every burst the data loop consumes lies in the window of k marks or k spaces (k >= 1) and the loop returns
+   exactly those runs written out *)
+Theorem C05_parse_sound_serial : forall tol mark space ds out, data_B tol mark space ds = Ok out ->
+  exists runs : list (Z * Z),
+    Forall2 (fun b tk => matchb tol b (fst tk * snd tk) = true /\ 0 < snd tk /\ (fst tk = mark \/ fst tk = space)) ds runs /\
+    out = flat_map (fun tk => repeat (fst tk) (Z.to_nat (snd tk))) runs.
+Proof. exact data_B_sound. Qed.
+
 Print Assumptions C05_parse_sound.
+Print Assumptions C05_parse_sound_serial.
 Print Assumptions C05_parse_sound_manchester.
